@@ -44,7 +44,8 @@ def generate(rng, tier):
             exp = (oracle.cfb_enc if direction == "enc" else oracle.cfb_dec)(tc, iv, msg)
             c.expect("buffered CFB %s equals the recurrence for any chunking" % direction, lambda r, outs=outs, exp=exp: joined(r, outs) == exp)
         elif which in (5, 6):   # CFB-8, block-level (1-byte blocks) or one-shot
-            L = rng.choice([0, 1, bs - 1, bs, bs + 1, 2 * bs + 1, rng.randint(0, 4 * bs + 3)])
+            # the mode's block is one byte, so the parallel width counts bytes: lengths around multiples of w too
+            L = rng.choice([0, 1, bs - 1, bs, bs + 1, 2 * bs + 1, w, w + 1, 2 * w + 1, 3 * w + 2, rng.randint(0, 4 * bs + 3)])
             msg = rbytes_n(rng, L)
             c = Case("c03_%d" % i, "block", bs, w, dm, tags=dict(path="cfb8", dir=direction))
             c.op("new o cfb8_%s new %s %s" % (direction, hx(key), hx(iv)))
